@@ -72,7 +72,8 @@ impl World {
             .map(|v| validator::ValidatorInfo {
                 key: self.pool[v[0].as_u64().unwrap() as usize].public(),
                 weight: u64_of(&v[1]),
-                leader: true,
+                // optional third component: leader eligibility (default: eligible)
+                leader: v.get(2).and_then(|x| x.as_u64()).map(|x| x != 0).unwrap_or(true),
             })
             .collect();
         validator::Schedule::new(vals, validator::LeaderSelection::default()).expect("schedule")
